@@ -90,11 +90,14 @@ def make_failing_batcher(real_cls, fault: AllocFault):
     class FailingBatcher(real_cls):  # type: ignore[misc, valid-type]
         def __init__(self, *a, **k):
             super().__init__(*a, **k)
-            self._sim_pass = fault.constructed
+            self._sim_ord = fault.constructed   # ordinal of this batcher within the armed call
+            self._sim_iters = 0                 # how often it has been iterated (pass number)
             fault.constructed += 1
 
         def __iter__(self):
             n = 0
+            self._sim_pass = self._sim_iters if self._sim_ord == 0 else 100 + self._sim_ord
+            self._sim_iters += 1
             for b in super().__iter__():
                 arm = fault.armed
                 if arm is not None and arm["pass"] == self._sim_pass and n >= arm["after"]:
